@@ -55,19 +55,59 @@ def real_engine(run, lines, wait=3.0):
 
 REAL_INSTANCES = [['position startpos', 'go depth 1'], ['position startpos moves e2e4 d7d5', 'go depth 2'], ['position startpos', 'go nodes 1'],
                   ['position startpos', 'go movetime 0'], ['position startpos', 'go wtime 1 btime 1 winc 0 binc 0'],
-                  ['position startpos', 'go depth 3 nodes 30']]
+                  ['position startpos', 'go depth 3 nodes 30'],
+                  # positions whose first generated move is illegal (check not answered / pinned piece): a cut before the first
+                  # root move is scored must still answer with a legal move
+                  ['position fen 4k3/8/8/8/8/8/4r3/R3K3 w - - 0 1', 'go nodes 1'], ['position fen 4r2k/8/8/8/8/8/8/R3K3 w - - 0 1', 'go movetime 0'],
+                  ['position fen 7k/8/8/8/8/8/8/rNK5 w - - 0 1', 'go nodes 1'], ['position fen 7k/8/8/8/8/8/8/rNK5 w - - 0 1', 'go wtime 1 btime 1'],
+                  ['position fen 4k3/8/8/8/8/8/4r3/R3K3 w - - 0 1', 'go depth 1']]
+STARTPOS = 'rnbqkbnr/pppppppp/8/8/8/8/PPPPPPPP/RNBQKBNR w KQkq - 0 1'
+
+
+def reference_legal_notations(run, inst):
+    """coordinate strings of the legal moves (independent mailbox rules) in the position an instance sets up; None if not computable"""
+    from .boardstep import parse_board_tokens
+    from . import chessref_concrete as CR
+    pos = inst[0].split()
+    if pos[1] == 'startpos':
+        fen, moves = STARTPOS, pos[3:] if len(pos) > 3 else []
+    else:
+        fen, moves = ' '.join(pos[2:8]), pos[9:] if len(pos) > 9 else []
+    if moves:
+        return None
+    rc, out, err = native.run_helper(run.helper, ['board', 'fen'] + fen.split())
+    if not out.startswith('OK'):
+        return None
+    d = parse_board_tokens(out[2:].split())
+    res = set()
+    for mv in CR.legal_moves(d):
+        s = 'abcdefgh'[mv[1]] + str(mv[0] + 1) + 'abcdefgh'[mv[3]] + str(mv[2] + 1)
+        if mv[4] is not None and mv[4] >= 0:
+            s += {B.QUEEN: 'q', B.ROOK: 'r', B.BISHOP: 'b', B.KNIGHT: 'n'}.get(mv[4], '?')
+        res.add(s)
+    return res
 
 
 def real_check(run, what, fid):
-    """an abstract counterexample about the bestmove answer: look for it on the real binary with small-limit go commands"""
+    """an abstract counterexample about the bestmove answer: look for it on the real binary with small-limit go commands
+    (number of bestmove lines, panics, and legality of the move named against the independent rules)"""
     for inst in REAL_INSTANCES:
         out, err = real_engine(run, inst, wait=2.0)
-        nb = sum(1 for l in out.split('\n') if l.startswith('bestmove'))
+        bl = [l for l in out.split('\n') if l.startswith('bestmove')]
+        nb = len(bl)
+        problem = None
         if nb != 1 or 'panicked' in err:
+            problem = '%d bestmove lines%s' % (nb, ' and the search thread panics' if 'panicked' in err else '')
+        else:
+            legal = reference_legal_notations(run, inst)
+            named = bl[0].split()[1] if len(bl[0].split()) > 1 else ''
+            if legal is not None and ((legal and named not in legal) or (not legal and named != '0000')):
+                problem = 'bestmove %s, which is not a legal move (legal: %s)' % (named, ' '.join(sorted(legal)) or 'none')
+        if problem:
             if fid in known_ids(run):
-                run.known_finding('%s %s (e.g. `%s`: %d bestmove lines)' % (fid, what, '; '.join(inst), nb))
+                run.known_finding('%s %s (e.g. `%s`: %s)' % (fid, what, '; '.join(inst), problem))
             else:
-                run.violation('%s: after `%s` the engine prints %d bestmove lines%s' % (what, '; '.join(inst), nb, ' and the search thread panics' if 'panicked' in err else ''),
+                run.violation('%s: after `%s` the engine prints %s' % (what, '; '.join(inst), problem),
                               {'lines': inst, 'bestmove_lines': nb, 'stderr': err[-400:]})
             return
     run.inconclusive.append('abstract counterexample (%s) not reproduced by the real engine on the small-limit instances' % what)
@@ -160,6 +200,17 @@ def step_root(run, n):
     node = env.G.nodes[0]
     legal = [m['legal'] for m in node['moves']]
     bad = []
+    # the Ply handed back to iter_deep: some pseudo-legal root move (not necessarily a legal one) -- the ITER contract relies on exactly this
+    rets = [v for v, _ in r[1]] if r[0] is X.PATHS else [r[0]]
+    rbad = []
+    for rv, s_ in zip(rets, sts):
+        ridx = bv(rv[1][0])
+        is_pseudo = z3.Or(*[z3.And(ridx == i, ply_eq(rv, env.G.ply_value(0, i))) for i in range(len(legal))]) if legal else z3.BoolVal(False)
+        rbad.append(z3.And(zb(s_.guard), z3.Or(*legal) if legal else z3.BoolVal(False), z3.Not(is_pseudo)))      # with no legal move the null move is handed back
+    if n > 0:
+        q = run.decide('%s/returned-move' % name, ex.pre + [z3.Or(*rbad)], kind='smt', note='alpha_beta_start hands back one of the root\'s generated moves')
+        if q.verdict == 'sat':
+            report(run, q, name, 'alpha_beta_start returns a move that is not among the generated root moves')
     for s_ in sts:
         S = ex.load(s_, sp.root, ())
         bm = S[4][0]
@@ -224,7 +275,13 @@ def step_iter(run, cfg):
         nn = z3.BitVec('nodes_after_iter_%d' % k, 64)
         ex.assume(z3.ULT(nn, 1 << 50))
         ctx.ex.store_to(ctx.st, sp.root, base + (('f', 4), ('f', 2)), nn)
-        return mv
+        # the returned Ply is only known to be one of the generated (pseudo-legal) root moves (ROOT/returned-move)
+        rpick = z3.BitVec('iteration_%d_returned' % k, 8)
+        ex.assume(z3.ULT(rpick, nmoves))
+        rmv = G.ply_value(0, 0)
+        for i in range(1, nmoves):
+            rmv = ite(rpick == i, G.ply_value(0, i), rmv)
+        return rmv
     ex.model(r'^search::Search::alpha_beta_start::<.*>$', ab_start)
     infos = []
 
